@@ -179,6 +179,11 @@ struct Fixture {
                             vrf::user_point();
                         }
                         RH moved(std::move(h));
+                        {
+                            // assigning a handle to itself (through an alias) changes nothing
+                            RH& alias = moved;
+                            moved = alias;
+                        }
                         traverse(moved, tid, a, false, false);
                         break;
                     }
